@@ -6,9 +6,9 @@ from vlib.core import qlit, qvec, qmat, coqbool, natlist, blist, zlist
 
 OBLIGATIONS = dict(
     prop_file='Properties/C06.v',
-    glue=['Glue/CoreGlue.v', 'Glue/Pin_p_residual.v'],
+    glue=['Glue/CoreGlue.v', 'Glue/Pin_p_residual.v'] + ['Glue/Pin_fp_C06.v'],
     extra=['Model/ResidualCheck.vo'],
-    gen_items=['p_residual', 'k_cdist'],
+    gen_items=['p_residual', 'k_cdist', 'fp_C06'],
 )
 ASSUMPTIONS = [
     'per-layer scalar quantizers (FSQ / LFQ layers), SimVQ layers, projections and the QINCo MLP are opaque functions: the harness applies the layer modules themselves to the residual the specification prescribes and compares bit-exactly / within 1e-5',
